@@ -658,6 +658,33 @@ def c12():
                          "line output depends on other lines", "anonymize_io")
 
 
+def c12_masks():
+    """tokens the IP stage must skip (netmasks, wildcard masks, addresses of a preserved network) written with
+    zero-padded octets are carried over as written, whatever else is on the line (found missing by seed s8-C12)"""
+    toks = ["255.255.255.000", "255.255.000.000", "000.000.000.255", "0.0.0.255", "255.255.255.0", "255.255.255.255",
+            "000.000.000.000", "255.255.255.252", "255.128.000.000", "000.000.003.255"]
+    forms = ["ip address 10.1.2.3 %s", " network 172.16.5.0 %s area 0", "access-list 10 permit 192.0.2.0 %s\r",
+             "\tmask %s", "%s", "route 10.9.8.0 %s 10.1.1.1 %s"]
+    for salt in ("s12", "m"):
+        for form in forms:
+            for t in toks:
+                line = form.replace("%s", t)
+                note(("mask", salt, form, t))
+                out = run_io(line + "\n", salt=salt, anon_pwd=False, anon_ip=True)
+                ti, to = line.split(), out.split()
+                if len(ti) != len(to) or any(x == t and y != t for x, y in zip(ti, to)):
+                    fail("C12.token", {"line": line, "output": out, "token": t},
+                         "a netmask / wildcard token was not carried over as written", "_anonymize_match")
+    pres = ["010.001.002.003", "10.01.2.3", "10.1.2.003"]
+    for t in pres:
+        line = "ip route %s 255.255.255.255 Null0" % t
+        note(("preserved", t))
+        out = run_io(line + "\n", salt="s12", anon_pwd=False, anon_ip=True, preserve_networks=["10.0.0.0/8"])
+        if out != line + "\n":
+            fail("C12.token", {"line": line, "output": out, "token": t, "preserve_networks": ["10.0.0.0/8"]},
+                 "an address of a preserved network was not carried over as written", "_anonymize_match")
+
+
 def c12_verbatim():
     """secret-bearing lines whose other tokens contain characters special to regex replacement templates:
     exactly one line out, every token except the secret carried over verbatim"""
@@ -1103,14 +1130,14 @@ def c19():
         fail("C19.dump", {"error": e1}, "map dump with IP anonymization failed", "main")
 
 
-CHECKS = {"C07": [c07, c07_multi, c07_corpus], "C08": [c08, c08_multi, lambda: c_corpus("C08")], "C09": [c09, lambda: c_corpus("C09")], "C10": [c10, c10_with_secrets, c10_unicode], "C12": [c12, c12_verbatim, lambda: c_corpus("C12")], "C13": [c13], "C14": [c14], "C15": [c15],
+CHECKS = {"C07": [c07, c07_multi, c07_corpus], "C08": [c08, c08_multi, lambda: c_corpus("C08")], "C09": [c09, lambda: c_corpus("C09")], "C10": [c10, c10_with_secrets, c10_unicode], "C12": [c12, c12_verbatim, c12_masks, lambda: c_corpus("C12")], "C13": [c13], "C14": [c14], "C15": [c15],
           "C16": [c16], "C19": [c19]}
 BOUNDS = {
     "C07": "25 line forms x 7 secret format classes x 2 secret variants (same equality pattern), output and INFO+ log compared; 8 standalone hash tokens; 5 one-line templates carrying two secrets of the same form",
     "C08": "60/1500 random runs: 2-5 secrets of mixed classes over 3-8 lines, 6 enclosing-text variants, $9$ re-encodings under random salts; one run over two streams and over a two-file directory with shared secrets in different positions; 5 lines with two secrets of one form on the same line; a $9$ and a $1$ secret in 8 quoting / punctuation contexts",
     "C09": "4 netconan salts x 5 line forms x 7 classes x 2/8 secrets x 8 enclosing-text variants; type 7 decoded, $1$ salt length, $6$ shape, $9$ decrypted",
     "C10": "5 word lists (prefixes/substrings, mixed case, a regex metacharacter) x 3 reserved sets x 2/3 hash seeds (subprocesses) x 11 lines; 8 lines mixing words with secrets and scrubbed forms, secrets on and off; 5 words with non-ASCII letters in their one-to-one letter cases",
-    "C12": "15 feature subsets x 5 texts (blank lines, tabs, CRLF, no final newline, empty); per-line independence for 17 lines; 11 tokens with backslash / template characters x 5 secret line forms carried over verbatim",
+    "C12": "15 feature subsets x 5 texts (blank lines, tabs, CRLF, no final newline, empty); per-line independence for 17 lines; 11 tokens with backslash / template characters x 5 secret line forms carried over verbatim; 10 zero-padded / canonical mask tokens x 6 line forms x 2 salts and 3 zero-padded addresses of a preserved network carried over as written",
     "C13": "a 6-file directory run under 3/5 hash seeds; 4 option sets x 2/4 hash seeds in fresh processes + in-process repeat after an unrelated anonymizer + caller's lists; no-salt path",
     "C14": "7 salts (empty, non-alphabet first character, non-ASCII) x 5 feature sets x ~75/650 hostile lines (backslashes, metacharacters, malformed hashes, 3000 quotes)",
     "C15": "3 option sets x 35 feature/undo combinations: combined run vs chained single-feature runs on a 30-line corpus incl. IPv6 with dotted tail",
